@@ -145,9 +145,8 @@ theorem fsToken_file (done : Contrib) (t : FsTree) (hinv : FsInv done t) (st : F
   rw [if_neg (fun hn => hn hcolon), if_neg hseg, ht,
     splitN3_three bColon p l nm (not_mem_of_all hp2 colon_not_digit) (not_mem_of_all hl2 colon_not_digit)]
   simp only [hpp, hpl]
-  rw [if_neg (by omega), hpath, hcreate]
+  rw [addI64_eq f.pos f.len (by omega), if_neg (by omega), hpath, hcreate]
   simp only []
-  rw [addI64_eq f.pos f.len (by omega)]
   by_cases hrew : st.pos > (f.pos : Int)
   · obtain ⟨idx, pos, hl, hc, hne⟩ := hloop 0 (Nat.zero_le _) (by simp)
     simp only [List.take_zero, streamLen_nil, List.drop_zero] at hl
